@@ -156,7 +156,7 @@ fn fill(s: &mut Spec, template: &Aff) {
 
 pub fn run_case(ctx: &Ctx, case: u64, ev: &mut Ev) {
     let mut rng = Rng::derive(ctx.seed, "C08", case);
-    rng.big = ctx.tier == crate::Tier::Thorough && rng.chance(0.2);
+    rng.big = crate::draw_big(ctx, &mut rng);
     let rg = match rng.below(10) {
         0..=4 => Regime::Int,
         5..=7 => Regime::Dyadic,
